@@ -88,10 +88,13 @@ def Blk.name (b : Blk) : Bytes := b.bytes O_name (min b.nameLen 30)
 def Blk.commLen (b : Blk) : Nat := b.byte O_commLen
 
 /-! ### checksums -/
-/-- `adfNormalSum(buf, offset, 512)` on the words of the buffer -/
-def normalSum (ws : List Nat) (skip : Nat) : Nat :=
-  let s := (List.range ws.length).foldl (fun acc i => if i = skip then acc else (acc + ws.getD i 0) % 4294967296) 0
-  (4294967296 - s) % 4294967296
+/-- sum modulo 2^32 of the words from index `i` on, leaving out index `skip` (the loop of adfNormalSum) -/
+def sumSkip : List Nat → Nat → Nat → Nat
+  | [], _, _ => 0
+  | w :: ws, i, skip => ((if i = skip then 0 else w) + sumSkip ws (i + 1) skip) % 4294967296
+
+/-- `adfNormalSum(buf, offset, 512)` on the words of the buffer: minus the sum of the other words -/
+def normalSum (ws : List Nat) (skip : Nat) : Nat := (4294967296 - sumSkip ws 0 skip) % 4294967296
 
 /-- `adfBootSum` over the 256 words of the two boot blocks (end-around carry, complemented) -/
 def bootSum (ws : List Nat) : Nat :=
